@@ -333,6 +333,20 @@ static void nested(unsigned long long& unit)
 				if(!(fabsl(v - ex) <= 3e-9L * fabsl(ex))) fail("spherical", key, "not_solid_angle_times_radial_integral", "Integrate_3D = " + mc::dec(v) + " expected " + mc::dec((double)ex));
 				else mc::maxi("spherical_err_over_allowed", (double)(fabsl(v - ex) / (3e-9L * fabsl(ex))), key);
 			}
+	// the defaulted angular arguments: the whole sphere (4 pi times the radial integral), and a polar band over the full azimuth
+	if(mc::mine(unit++))
+		for(auto rr : std::vector<std::pair<double, double>>{{0.5, 2}, {1, 1.5}})
+			for(int form = 0; form < 3; form++)
+			{
+				auto f = [&](Vector v) { double r = v.Norm(); return std::exp(-r) * (1 + r); };
+				auto R = [](ld r) { return -expl(-r) * (r * r * r + 4 * r * r + 8 * r + 8); };
+				double v = 0;
+				std::string key = "spherical,defaults,form=" + std::to_string(form) + ",r=" + mc::dec(rr.first) + ".." + mc::dec(rr.second);
+				if(mc::library_exits([&]() { v = form == 0 ? Integrate_3D(f, rr.first, rr.second) : form == 1 ? Integrate_3D(f, rr.first, rr.second, -0.25, 0.75) : Integrate_3D(f, rr.first, rr.second, -1.0, 1.0, 0.5); })) { fail("spherical", key, "terminated_process", "valid request ended the process"); continue; }
+				g_cases++;
+				ld ex = (form == 2 ? 2 * M_PIl - 0.5L : 2 * M_PIl) * (form == 1 ? 1.0L : 2.0L) * (R(rr.second) - R(rr.first));
+				if(!(fabsl(v - ex) <= 3e-9L * fabsl(ex))) fail("spherical", key, "not_solid_angle_times_radial_integral", "Integrate_3D with defaulted angles = " + mc::dec(v) + " expected " + mc::dec((double)ex));
+			}
 }
 
 int main(int argc, char** argv)
